@@ -283,7 +283,7 @@ def run_unit(u, b, keep=None, trace=False, use_cache=True):
             # assertions) before the contract instrumentation, as DFCC requires
             ugb = os.path.join(out, 'u.gb')
             pre = os.path.join(out, 'u_pre.gb')
-            cmdp = ['goto-instrument', '--unwinding-assertions']
+            cmdp = ['goto-instrument'] + ([] if u.get('pre_unwind_assume') else ['--unwinding-assertions'])
             for k, v in u['pre_unwind'].items():
                 cmdp += ['--unwindset', '%s:%d' % (k, v)]
             rc, so, se, _ = sh(cmdp + [ugb, pre], timeout=300)
@@ -320,7 +320,7 @@ def run_unit(u, b, keep=None, trace=False, use_cache=True):
         if data is None:
             if trace:
                 cb = cb + ['--trace']
-            rc, so, se, dt = sh(cb, timeout=u.get('timeout', 300))
+            rc, so, se, dt = sh(cb, timeout=u.get('timeout', 300), mem=int(u.get('mem_gb', 12)) << 30)
             if rc == -9:
                 res['error'] = 'cbmc timeout after %ss' % u.get('timeout', 300)
                 return res
@@ -331,7 +331,9 @@ def run_unit(u, b, keep=None, trace=False, use_cache=True):
                 return res
             data = [e for e in data if 'result' in e or e.get('messageType') in ('ERROR', 'STATUS-MESSAGE', 'WARNING')
                     or 'cProverStatus' in e]
-            if not trace:
+            bad = any(e.get('messageType') == 'ERROR' for e in data) or \
+                any(r.get('status') in ('ERROR', 'UNKNOWN') for e in data if 'result' in e for r in e['result'])
+            if not trace and not bad:     # only definite verdicts are cached
                 os.makedirs(CACHE, exist_ok=True)
                 tmp = cpath + '.%d.tmp' % os.getpid()
                 json.dump({'data': data, 'solver_s': dt}, open(tmp, 'w'))
